@@ -542,13 +542,14 @@ Proof. intros R P alpha cfg rest H. unfold guarded. rewrite H. destruct (rest tt
 
 Theorem guard_obs_sound : forall o,
   guard_corr o = true ->
-  (read_only (g_alpha o) (g_mode o) = true -> g_root_unchanged o = true) ->
+  (read_only (g_alpha o) (g_mode o) = true ->
+   g_root_unchanged o = true /\ g_staging_unchanged o = true) ->
   guard_ok o = true.
 Proof.
   intros o C U. unfold guard_corr in C. apply andb_true_iff in C. destruct C as [C1 C2].
   apply eqb_prop in C1, C2. unfold guard_ok. unfold read_only in *.
   destruct (g_alpha o && unidirectional (effective_mode (g_mode o))); [|reflexivity].
-  rewrite C1, C2, (U eq_refl). reflexivity.
+  destruct (U eq_refl) as [U1 U2]. rewrite C1, C2, U1, U2. reflexivity.
 Qed.
 
 Theorem oneway_alpha_untouched_modes : forall m anc al be,
